@@ -224,6 +224,29 @@ pub fn run(g: &mut Global) {
         },
         &check,
     );
+    // one uninterrupted life past 2^16 inputs, the range checked at every step: a periodic rebuild or a counter
+    // that misfires once every 2^k inputs produces a single out-of-range output
+    const LK: [Kind; 5] = [Kind::Rsi, Kind::FastStoch, Kind::SlowStoch, Kind::Mfi, Kind::Er];
+    let seedl = g.seed;
+    let ll = g.tier.pick(70_000usize, 300_000usize);
+    g.exhaustive(
+        "long_life",
+        5 * 3 * 4,
+        &move |i| {
+            let kind = LK[(i % 5) as usize];
+            let r = i / 5;
+            let n = [2usize, 14, 33][(r % 3) as usize];
+            let regime = [0usize, 3, 1, 2][(r / 3) as usize % 4];
+            let mut gen = crate::props::c13::Gen::new(seedl ^ (i + 3).wrapping_mul(0x9E3779B97F4A7C15), regime, 1.7, 2 + n);
+            let cfg = if kind == Kind::SlowStoch { Cfg { kind, p: vec![n, 3], m: X(0.0) } } else { Cfg { kind, p: vec![n], m: X(0.0) } };
+            if kind.scalar() && i % 2 == 0 {
+                Case { cfg, scalar: true, xs: (0..ll).map(|_| X(gen.next())).collect(), bars: vec![], stride: 0 }
+            } else {
+                Case { cfg, scalar: false, xs: vec![], bars: (0..ll).map(|_| gen.bar()).collect(), stride: 0 }
+            }
+        },
+        &check,
+    );
     let (lo, hi, cnt) = g.tier.pick((2000usize, 5000usize, 160u32), (20000usize, 50000usize, 1600u32));
     g.random("long", cnt, &move || strategy(lo, hi), &check);
     if g.tier == Tier::Thorough {
